@@ -263,6 +263,15 @@ class Ctx:
                 self.add_violation(sub, last["case"], last["records"])
                 # exclusion by construction: keep searching behind this signature
                 continue
+            except Exception as e:
+                # Hypothesis reports a failure that does not reproduce on replay as Flaky: the code under test is
+                # non-deterministic (e.g. a data race).  The recorded failing execution is a violation all the same.
+                if type(e).__name__ in ("Flaky", "FlakyFailure", "FlakyReplay") and last.get("failing"):
+                    for rec in last["records"]:
+                        rec["detail"] = "[did not reproduce on immediate replay: non-deterministic] " + rec["detail"]
+                    self.add_violation(sub, last["case"], last["records"])
+                    continue
+                raise
         self._health(sub)
 
     def _enumerate(self, sub):
